@@ -14,6 +14,7 @@
   the values `exResults` lists.  `lcp` is instantiated by `lcpLen` on the elements (`exLcp_spec : LcpSpec exLcp`).
 -/
 import LzProofs.GenBUPHistC19
+import LzProofs.GenBUPShrinkWitness
 import LzProofs.GenBUPParseEx
 
 namespace LZ.GenBUPHist
@@ -72,9 +73,12 @@ def exResults : List GResU :=
              Literals := { arr := [104, 101, 108, 108, 111, 32], len := 6 } } 23 Gen.Err.ok,
     .parse { Sequences := [], Literals := { arr := [], len := 0 } } 0 Gen.ErrEmptyBuffer ]
 
+/-- `exOps` contains no `Shrink()`, so the opaque `shiftOffsets` is never called in `exRun`: any function will do there -/
+def exSO0 : SOFun := fun _ _ => Res.panic
+
 /-- the run on the translated functions, evaluated by the kernel -/
 theorem exRun :
-    (match runU (rfGo 0) exGrow 43 exLcp GenBUPParse.exS0 exOps with | .ok r => some r.2 | _ => none) = some exResults := by
+    (match runU (rfGo 0) exGrow 43 exLcp exSO0 GenBUPParse.exS0 exOps with | .ok r => some r.2 | _ => none) = some exResults := by
   decide +kernel
 
 /-- the bookkeeping computed from the calls and the results: after the `Reset` 23 bytes were fed, all consumed, one
@@ -92,10 +96,22 @@ theorem exGhost4 :
 
 theorem exFuel : GenBUPParse.exS0.bucketDictionary.ParserBuffer.BufConfig.BufferSize.toNat + 3 ≤ 43 := by decide +kernel
 
-/-- the general theorems for this history -/
-example := gen_bup_history GenBUPParse.exCfg GenBUPParse.exS0 GenBUPParse.exInit 0 exGrow 43 exLcp exLcp_spec exFuel exOps exWF
-example := C01_go_text_bup GenBUPParse.exCfg GenBUPParse.exS0 GenBUPParse.exInit 0 exGrow 43 exLcp exLcp_spec exFuel exOps exWF
-example := C19_go_text_bup GenBUPParse.exCfg GenBUPParse.exS0 GenBUPParse.exInit 0 exGrow 43 exLcp exLcp_spec exFuel exOps exWF
+/-- the general theorems, for this history and for a history WITH `Shrink()` calls (well-formed): the opaque `shiftOffsets` is instantiated by the witness `shiftK`
+    (`shiftK_spec : ShiftSpec shiftK`, LzProofs/GenBUPShrinkWitness.lean), so no hypothesis is left -/
+def exOpsS : List GOpU := exOps.take 3 ++ [.shrink, .write (sliceOf exD), .parse default 0, .shrink] ++ exOps.drop 3
+
+theorem exWFS : ∀ op ∈ exOpsS, op.WF := by
+  intro op hop
+  simp only [exOpsS, List.mem_append, List.mem_cons, List.not_mem_nil, or_false] at hop
+  rcases hop with (h | h) | h
+  · exact exWF op (List.mem_of_mem_take h)
+  · rcases h with rfl | rfl | rfl | rfl <;> first | trivial | exact Nat.le_refl _ | (show (0 : Int) ≤ _; decide)
+  · exact exWF op (List.mem_of_mem_drop h)
+
+example := gen_bup_history GenBUPParse.exCfg GenBUPParse.exS0 GenBUPParse.exInit 0 exGrow 43 exLcp exLcp_spec shiftK shiftK_spec exFuel exOps exWF
+example := gen_bup_history GenBUPParse.exCfg GenBUPParse.exS0 GenBUPParse.exInit 0 exGrow 43 exLcp exLcp_spec shiftK shiftK_spec exFuel exOpsS exWFS
+example := C01_go_text_bup GenBUPParse.exCfg GenBUPParse.exS0 GenBUPParse.exInit 0 exGrow 43 exLcp exLcp_spec shiftK shiftK_spec exFuel exOpsS exWFS
+example := C19_go_text_bup GenBUPParse.exCfg GenBUPParse.exS0 GenBUPParse.exInit 0 exGrow 43 exLcp exLcp_spec shiftK shiftK_spec exFuel exOpsS exWFS
 
 end LZ.GenBUPHist
 
